@@ -909,7 +909,7 @@ func c20Restart(c *Ctx) {
 	}
 	execs := make([]*rsExec, len(live))
 	for i := range live {
-		execs[i] = &rsExec{c: c, cs: live[i], dir: filepath.Join(c.ScratchDir(), "db"), enc: newJenc(), expCtl: map[int]int{}, cut: -1}
+		execs[i] = &rsExec{c: c, cs: live[i], dir: filepath.Join(c.ScratchDir(), oddDirName(i, "db")), enc: newJenc(), expCtl: map[int]int{}, cut: -1}
 	}
 	// histories that Start() a server run one after the other, the rest in parallel (each on its own directory)
 	var seq, par []int
@@ -973,4 +973,16 @@ func c20Restart(c *Ctx) {
 		}
 		c.Trace()
 	}
+}
+
+// oddDirName: storage directories whose names contain the characters that mean something to glob patterns, shells and
+// URL paths (the default storage path is the accessory's name: "Lamp [kitchen]").
+func oddDirName(i int, plain string) string {
+	switch i % 5 {
+	case 1:
+		return plain + " [kitchen]"
+	case 3:
+		return plain + "\\b*?{a,b} %41#"
+	}
+	return plain
 }
